@@ -28,14 +28,17 @@ CHECKS = {
  "C10": dict(level="model_checking", technique="symbolic execution of the MIR of SM9 encrypt / decrypt / kdf / sm3_hmac / xor over bit-vectors with pairing/group layers and SM3 as z3 uninterpreted functions, one query set per length",
              text="ciphertext = C1||C3||C2 with C1 = [r]([H1(ID||03)]P1+Ppub-e) for the last r, C2 = M xor K1, K1||K2 = KDF(C1||e(Ppub-e,P2)^r||ID,|M|+32); decrypt returns m only if C1 is on the curve, m = C2 xor K1 and C3 matches in all 32 bytes, for ciphertext lengths listed (incl. <98 and >352 bytes: error, no panic). KNOWN FINDING: C3 is HMAC-SM3(K2,C2), not the standard's Hv(C2||K2).",
              note="layers uninterpreted; message lengths listed in evidence (1,2,32,33,255 quick); MAC deviation recorded in known_findings.json.", design="§2 C10", engine="mirsmt"),
- "C11": dict(level="model_checking", technique="layered symbolic execution of the MIR of gm-sm2 into z3: limbs (free partial products), big integers (Montgomery witness), abstract field (group-law case analysis), exponent tracking; ground check of all 8160 table entries",
-             text="u256/u512 limb arithmetic exact; Montgomery multiplication mod p and mod n, fp/fn add/sub/neg/double/triple exact and canonical for all operands; point_add/point_dbl/neg/to_affine/is_valid implement the group law for every Jacobian representation incl. P=Q, P=-Q, infinity; fp_inv/fp_sqrt/fn_pow exponents; every fixed-base table entry equals its multiple of G; constants recomputed.",
-             note="summaries at layer k+1 are the statements proved at layer k; reals as generic field at L3; scalar-multiplication loops (L4) only as listed in evidence.", design="§2 C11", engine="mirsmt"),
+ "C11": dict(level="model_checking", technique="layered symbolic execution of the MIR of gm-sm2 into z3: limbs (free partial products), big integers (Montgomery witness), abstract field (group-law case analysis), exponent tracking, loop-cut invariants for the scalar-multiplication loops; ground check of all 8160 table entries",
+             text="u256/u512 limb arithmetic exact; Montgomery multiplication mod p and mod n, fp/fn add/sub/neg/double/triple exact and canonical for all operands; point_add/point_dbl/neg/to_affine/is_valid implement the group law for every Jacobian representation incl. P=Q, P=-Q, infinity; fp_inv/fp_sqrt/fn_pow exponents; every fixed-base table entry equals its multiple of G; constants recomputed; Point::scalar_mul(P,k) = [k]P and g_mul(k) = [k]G for every 256-bit k.",
+             note="summaries at layer k+1 are the statements proved at layer k; reals as generic field at L3; L4: scalar_mul and g_mul decided for ALL 256-bit scalars by cutting the loop at its head (invariant + one inductive step per window), counterexamples replayed natively.", design="§2 C11", engine="mirsmt"),
+ "C12": dict(level="model_checking", technique="decomposition of the R-ate pairing decided piecewise by symbolic execution of the MIR into z3: line functions as polynomial identities over an abstract Fp2, sparse multiplication over the tower, Frobenius maps as linear maps with matrices compared against x -> x^(p^k) computed in Fp[w]/(w^12+2), final exponent by exponent tracking, Miller loop by divisor comparison in the log domain (uninterpreted odd valuation of the points)",
+             text="eval_g_tangent / eval_g_line / eval_g_line_no_pre return 2T / T+Q and an Fp2*-multiple of the line through the untwisted points evaluated at P (as lw0 + lw1 w^2 + lw2 w^3); fp_line_mul is multiplication by that sparse element; fp12_frobenius{,2,3,6} are x -> x^(p^k) (constants included); point_pi1 / point_neg_pi2 are pi(Q), -pi^2(Q); final_exponent raises to exactly (p^12-1)/N; the product accumulated by sm9_u256_pairing has the divisor of f_{6t+2,Q} l_{[6t+2]Q,pi Q} l_{[6t+2]Q+pi Q,-pi^2 Q} modulo vertical lines, followed by the final exponent. Hence e(P,Q) is the R-ate pairing (bilinear, non-degenerate, order N follow from the mathematics of that pairing, which is not re-proved). One concrete anchor: the Annex A signature example verifies natively.",
+             note="Fp12 mul/sqr/inv, Fp12::pow and the G2 group law are C13 obligations used as summaries; degenerate line cases (T = +-Q, y = 0) cannot occur for points of prime order N > 6t+2 and are excluded; equality of the 384-byte encoding with an independent implementation is covered only by the single native anchor vector.", design="§2 C12", engine="mirsmt"),
  "C13": dict(level="model_checking", technique="layered symbolic execution of the MIR of gm-sm9 into z3: limbs, Montgomery mod p, Barrett mod N (lemma chain), Booth recoding (bit-vectors), tower formulas over an abstract field, G1/G2 group-law case analysis; ground check of all 2368 table entries",
-             text="Fp/Fp2/Fp4/Fp12 add, sub, mul, sqr, neg, double, triple, halve, inverse (every zero-component branch) equal the tower Fp[w]/(w^12+2); mod-N add/sub/mul exact; Booth digits (w=5,7) recompose every scalar; G1 and G2 add/sub/double/neg/equality/affine/on-curve implement the group law in every Jacobian representation; fixed-base table exhaustive.",
-             note="as C11; G2 formulas over an abstract Fp2; known finding: TwistPoint::point_equals (see known_findings.json).", design="§2 C13", engine="mirsmt"),
+             text="Fp/Fp2/Fp4/Fp12 add, sub, mul, sqr, neg, double, triple, halve, inverse (every zero-component branch) equal the tower Fp[w]/(w^12+2); mod-N add/sub/mul exact; Booth digits (w=5,7) recompose every scalar; G1 and G2 add/sub/double/neg/equality/affine/on-curve implement the group law in every Jacobian representation; fixed-base table exhaustive; Point::point_mul, Point::g_mul, TwistPoint::point_mul(=g_mul) compute [k]P and Fp12::pow computes x^e for every 256-bit k / every e <= N-1; u256_to_bits is MSB first.",
+             note="as C11; G2 formulas over an abstract Fp2; L4: Point::point_mul, Point::g_mul, TwistPoint::point_mul and Fp12::pow decided for ALL scalars/exponents by loop cut + invariant; known finding: TwistPoint::point_equals (see known_findings.json).", design="§2 C13", engine="mirsmt"),
  "C14": dict(level="other", technique="symbolic execution of the samplers' MIR with the CSPRNG as environment (arbitrary bytes), z3 bit-vector queries; key-generation data-flow with uninterpreted group layer",
-             text="random_u256 / sm9_random_u256 return exactly the big-endian integer of the accepted 32-byte draw, accept only values in [1, order-1] (n for SM2, N for SM9), never a rejected draw; all five key generators use the scalar drawn in that call and publish [k]G / [k]P1 / [k]P2. Freshness at the signing, encryption and exchange call sites is proved in C03/C05/C15/C09/C10/C17. The statistical half (no repeats, per-bit frequencies of the OS CSPRNG) is NOT decidable by this technique and is trusted.",
+             text="random_u256 / sm9_random_u256 return exactly the big-endian integer of the accepted 32-byte draw, accept only values in [1, order-1] (n for SM2, N for SM9), never a rejected draw; all five key generators use the scalar drawn in that call and publish [k]G / [k]P1 / [k]P2. At every call site (SM2 sign, encrypt, exchange_1/2 incl. an object reused from an earlier run; SM9 sign, encrypt, exchange 1a/1b) the scalar used is the last one drawn inside that invocation. The statistical half (no repeats, per-bit frequencies of the OS CSPRNG) is NOT decidable by this technique and is trusted.",
              note="rand::thread_rng and the OS are the trusted base; at most two draws explored per call.", design="§2 C14", engine="mirsmt"),
  "C15": dict(level="model_checking", technique="symbolic execution of the MIR of Exchange::exchange_1..4 over bit-vectors with hash/group/mod-n layers as z3 uninterpreted functions; algebraic agreement as a ring identity",
              text="R = [r]G for a fresh scalar; x~ = 2^127 + (x mod 2^127); t = d + x~ r; V/U = [t](P_peer + [x~_peer]R_peer); K = KDF(xV||yV||Z_A||Z_B, klen) of the requested length; S_B/S_A use one-byte tags 0x02/0x03 over yV||SM3(xV||Z_A||Z_B||x1||y1||x2||y2); each step fails exactly when the peer's R is invalid, the shared point is infinity, or the confirmation value differs in any byte; both sides compute the same point.",
@@ -45,7 +48,7 @@ CHECKS = {
              note="u256/u320 limb arithmetic proved exact once (L1) and used as integer statements; SM3 and the group layer are arbitrary functions in the Kani harnesses; Annex values only in the replay reference.", design="§2 C16", engine="mirsmt+kani"),
  "C17": dict(level="model_checking", technique="symbolic execution of the MIR of exch_step_1a / 1b / 2a over bit-vectors with pairing/group layers and SM3 as z3 uninterpreted functions; ring identity for agreement",
              text="R_A = [r_A]([H1(ID_B||02)]P1+Ppub-e), R_B likewise for the last scalar drawn; both parties derive KDF(ID_A||ID_B||R_A||R_B||g1||g2||g3, klen) of exactly klen bytes with g1,g2,g3 as GM/T 0044.3 defines on each side; a received R is checked to be on the curve before use; every step terminates (no unbounded retry on identical inputs); (g1,g2,g3) coincide on both sides over ideal bilinear groups.",
-             note="layers uninterpreted; klen in {1,16,33} quick; identities of 5/3 bytes; tamper => different keys modulo SM3 collision resistance.", design="§2 C17", engine="mirsmt"),
+             note="layers uninterpreted; klen in {1,16,32,33,64,65,97} quick (1..130 thorough); identities of 5/3 bytes; tamper => different keys modulo SM3 collision resistance.", design="§2 C17", engine="mirsmt"),
  "C18": dict(level="model_checking", technique="Kani/CBMC bounded model checking of the real EEA/EIA code with ZUC replaced by capturing stubs handing out symbolic keystream",
              text="IV byte layout for all COUNT/BEARER/DIRECTION; number of keystream words requested for ALL 32-bit LENGTH (no overflow); EEA3 output words and EIA3 MAC equal the 3GPP formulas for symbolic key, message and keystream at LENGTH in {0,1,31,32,33,63,64,65,95,96}.",
              note="keystream arbitrary (C08); message content beyond 96 bits outside the bound.", design="§2 C18", engine="kani"),
